@@ -71,6 +71,13 @@ Theorem start_failure_is_inert : forall n ops, Forall start_failure_inert (trace
 Proof. exact start_failure_is_inert_l. Qed.
 Print Assumptions start_failure_is_inert.
 
+(* A StartCommand that fails changes no node's queue membership, and one that is REJECTED because a candidate is
+   already the subject of an in-flight command changes nothing at all: no API effect, every taint, condition, mark,
+   queue entry and in-flight command exactly as before. *)
+Theorem rejected_start_changes_nothing : forall n ops, Forall rejected_start_inert (trace (init n) ops).
+Proof. exact rejected_start_changes_nothing_l. Qed.
+Print Assumptions rejected_start_changes_nothing.
+
 (* A command that is given up leaves each of its candidates without a queue entry and without the
    in-memory deletion mark (whatever faults hit the untaint / condition calls). *)
 Theorem failed_command_rolls_back : forall n ops, Forall failed_rolls_back (trace (init n) ops).
@@ -130,11 +137,12 @@ Theorem oracle_is_spec : forall x,
   (start_failure_inert_b x = true <-> start_failure_inert x) /\
   (cleanup_restores_b x = true <-> cleanup_restores x) /\
   (one_cmd_per_node_b x = true <-> one_cmd_per_node x) /\
-  (cmd_reachable_b x = true <-> cmd_reachable x).
+  (cmd_reachable_b x = true <-> cmd_reachable x) /\
+  (rejected_start_inert_b x = true <-> rejected_start_inert x).
 Proof.
   exact (fun x => conj (del_after_init_reflect x) (conj (del_while_ready_reflect x)
     (conj (failed_deletes_nothing_reflect x) (conj (failed_rolls_back_reflect x)
-    (conj (start_failure_inert_reflect x) (conj (cleanup_restores_reflect x) (conj (one_cmd_per_node_reflect x) (cmd_reachable_reflect x)))))))).
+    (conj (start_failure_inert_reflect x) (conj (cleanup_restores_reflect x) (conj (one_cmd_per_node_reflect x) (conj (cmd_reachable_reflect x) (rejected_start_inert_reflect x))))))))).
 Qed.
 Print Assumptions oracle_is_spec.
 
@@ -222,3 +230,13 @@ Example node_object_states :
   let s := run (init 2) [Start [0; 1] 1 [] [] [0]; NodeObjDeleting 0; NodeObjGone 1; Cleanup [] []] in
   n_taint (s_nodes s 0) = true /\ n_cond (s_nodes s 0) = false /\ n_taint (s_nodes s 1) = false /\ n_cond (s_nodes s 1) = true.
 Proof. vm_compute. repeat split. Qed.
+
+(* a second command sharing candidate 1 with a waiting command is rejected and nothing moves; the first command then
+   completes as if nothing had happened *)
+Example overlapping_start_rejected :
+  let ops := [Start [0; 1; 2] 1 [] [] []; ReplLaunch 0 0; Start [1; 3] 1 [] [] []; Cleanup [] []; Start [1] 0 [] [] [];
+              ReplInit 0 0; Recon 1 [] [] [] []] in
+  map obs_of (trace (init 4) ops)
+  = [(Started, []); (EnvOk, []); (ErrBusy, []); (COk, []); (ErrBusy, []); (EnvOk, []);
+     (RSucceeded, [(0, true, true); (1, true, true); (2, true, true)])].
+Proof. vm_compute. reflexivity. Qed.
